@@ -48,6 +48,7 @@ SplitLines(s) == LET p == PositionsOf(s, NL)  n == Len(p) IN
 NQuotes(s) == Cardinality({i \in 1..Len(s) : s[i] = QT})
 IsMulti(s) == Len(s) >= 6 /\ SubSeq(s, 1, 3) = Q3 /\ SubSeq(s, Len(s) - 2, Len(s)) = Q3
 IsSingle(s) == Len(s) >= 2 /\ s[1] = QT /\ s[Len(s)] = QT /\ ~IsMulti(s) /\ NL \notin {s[i] : i \in 1..Len(s)}
+CtiFramed(s) == IsMulti(s) \/ IsSingle(s)          \* opens and closes; enough to read lines and words
 CtiDelimited(s) == (IsMulti(s) /\ NQuotes(s) = 6) \/ (IsSingle(s) /\ NQuotes(s) = 2)
 \* drop the delimiters from the words of a line
 StripOpen(ws) == IF Len(ws) = 0 THEN ws
@@ -59,7 +60,7 @@ StripClose(ws) == IF Len(ws) = 0 THEN ws
                        IF w = Q3 THEN front
                        ELSE IF Len(w) > 3 /\ SubSeq(w, Len(w) - 2, Len(w)) = Q3
                             THEN Append(front, SubSeq(w, 1, Len(w) - 3)) ELSE ws
-CtiLayoutOf(s) ==        \* meaningful when CtiDelimited(s)
+CtiLayoutOf(s) ==        \* meaningful when CtiFramed(s)
    IF IsMulti(s)
    THEN LET raw == SplitLines(s)  n == Len(raw) IN
         [k \in 1..n |->
